@@ -61,6 +61,7 @@ class Knobs:
         self.p_scen_date = 0.0      # scenario-specific start (ASAP) / end (ALAP) overrides, also on containers
         self.p_prec = 0.0
         self.p_nested_abs = 0.5      # a global holiday inside a resource's multi-day leave
+        self.p_long_leave = 0.0      # extra weight for leaves of several days
         self.p_group = 0.25
         self.p_subgroup = 0.35       # a sub-group between the group and (one of) its members
         self.p_group_cal = 0.5       # a group carries hours / shift / zone / leave that its members inherit
@@ -202,7 +203,8 @@ def gen_project(rng, k=None):
             r["tz"] = dst_zone
         if p.get("shifts") and pick(rng, 0.6):
             r["shift"] = "sh1"
-        elif pick(rng, k.p_wh):
+        elif pick(rng, k.p_wh) or (group is not None and group.get("shift") and pick(rng, 0.5)):
+            # (inside a group that refers to a shift: hours of the member's own, which must win over the inherited shift, F55)
             wh = gen_hours(rng, G, k.aligned_only)
             if wh:
                 r["wh"] = wh
@@ -211,6 +213,8 @@ def gen_project(rng, k=None):
             c = rng.random()
             if not k.aligned_only and c < 0.35:
                 c = 0.9                     # unaligned calendars: more bookings (the only absences with a time of day)
+            if pick(rng, k.p_long_leave):
+                c = 0.5                     # a leave of several days (room for another absence nested inside it)
             if c < 0.4:
                 r["leaves"] = [[rng.choice(["annual", "sick", "special"]), a, None]]
             elif c < 0.6:
@@ -267,7 +271,11 @@ def gen_project(rng, k=None):
                 if len(ids) >= 2 and pick(rng, k.p_team):
                     t["alloc"] = rng.sample(ids, 2)
                 elif len(ids) >= 2 and pick(rng, k.p_alt):
-                    t["alt"] = [rng.choice([x for x in ids if x not in t["alloc"]])]
+                    others = [x for x in ids if x not in t["alloc"]]
+                    t["alt"] = [rng.choice(others)]
+                    if len(others) >= 2 and pick(rng, 0.35):
+                        # several alternatives, in the written order (the first one decides the routing)
+                        t["alt"] = rng.sample(others, 2)
                 elif group is not None and pick(rng, k.p_group_alloc):
                     # a resource group allocated directly: groups have no time of their own, the task cannot be placed
                     t["alloc"] = ["grp"] if pick(rng, 0.7) else ["grp", rng.choice(ids)]
